@@ -37,6 +37,7 @@ import (
 	"io"
 	"math/big"
 	"os"
+	"os/exec"
 	"path/filepath"
 	"runtime/debug"
 	"sort"
@@ -72,7 +73,7 @@ var (
 	crDir   = flag.String("out", "", "output directory")
 	crOnly  = flag.Int("only", -1, "generate and run only this case index")
 	crTier  = flag.String("tier", "quick", "quick|thorough")
-	crFacts = flag.String("facts", "", "unused (no source-derived facts for C05)")
+	crFactsFlag = flag.String("facts", "", "unused (no source-derived facts for C05)")
 )
 
 type crRand struct{ s uint64 }
@@ -165,8 +166,16 @@ func (o *crOut) Close() {
 	for _, f := range o.files {
 		f.Close()
 	}
+	var keys []string
+	for k := range o.nontrivial {
+		keys = append(keys, k)
+	}
+	sort.Strings(keys)
 	st := map[string]interface{}{"cases": o.cases, "ops": o.ops, "distinct_nontrivial": len(o.nontrivial),
 		"rule": o.rule, "dist": o.dist, "samples": o.samples, "oracle_failures": o.fails, "seed": *crSeed}
+	if os.Getenv("C05_CHILD") != "" {
+		st["nontrivial_keys"] = keys
+	}
 	b, _ := json.MarshalIndent(st, "", " ")
 	os.WriteFile(filepath.Join(o.dir, "stats.json"), b, 0o644)
 }
@@ -220,6 +229,7 @@ type crActed struct {
 type crWalRec struct {
 	end  int    // byte offset the record ends at
 	kind string // eh:<h> | own-prop | own-part | own-vote:<t> | peer | timeout | step
+	tok  string // the same with height / round for the model
 }
 
 type crRec struct {
@@ -509,6 +519,33 @@ func crWalMsgKind(m WALMessage) string {
 	return "unknown"
 }
 
+func crWalMsgTok(m WALMessage) string {
+	switch x := m.(type) {
+	case EndHeightMessage:
+		return fmt.Sprintf("eh:%d", x.Height)
+	case msgInfo:
+		if x.PeerID != "" {
+			return "peer"
+		}
+		switch mm := x.Msg.(type) {
+		case *ProposalMessage:
+			return fmt.Sprintf("prop:%d:%d", mm.Proposal.Height, mm.Proposal.Round)
+		case *BlockPartMessage:
+			return fmt.Sprintf("part:%d:%d", mm.Height, mm.Round)
+		case *VoteMessage:
+			n := "b"
+			if mm.Vote.BlockID.Hash.IsZero() {
+				n = "n"
+			}
+			return fmt.Sprintf("vote:%d:%d:%d:%s", int(mm.Vote.Type), mm.Vote.Height, mm.Vote.Round, n)
+		}
+		return "peer"
+	case timeoutInfo:
+		return fmt.Sprintf("timeout:%d:%d:%d", x.Height, x.Round, int(x.Step))
+	}
+	return "step"
+}
+
 func (w *crWAL) size() int {
 	st, err := os.Stat(w.path)
 	if err != nil {
@@ -519,16 +556,15 @@ func (w *crWAL) size() int {
 
 func (w *crWAL) note(m WALMessage, sync bool) {
 	r := w.rec
-	// make the bytes visible in the file so that the record's end offset is known; what is
+	// the record's end offset = bytes in the file + bytes still in the group's buffer; what is
 	// DURABLE is decided by the calls of the code under test alone
-	w.inner.group.FlushAndSync()
-	end := w.size()
+	end := w.size() + w.inner.group.Buffered()
 	r.mu.Lock()
 	if !r.frozen {
 		kind := "sync"
 		if m != nil {
 			kind = crWalMsgKind(m)
-			r.recs = append(r.recs, crWalRec{end: end, kind: kind})
+			r.recs = append(r.recs, crWalRec{end: end, kind: kind, tok: crWalMsgTok(m)})
 		}
 		r.walBuf = end
 		if sync && end > r.walDur {
@@ -601,7 +637,7 @@ func crOpenWAL(cfg *configs.ConsensusConfig, rec *crRec, logger log.Logger) (*cr
 	rec.mu.Lock()
 	if sz > rec.walDur {
 		if rec.walDur == 0 && len(rec.recs) == 0 {
-			rec.recs = append(rec.recs, crWalRec{end: sz, kind: "eh:0"})
+			rec.recs = append(rec.recs, crWalRec{end: sz, kind: "eh:0", tok: "eh:0"})
 			rec.log = append(rec.log, crWrite{wal: true, walLen: sz, walBuf: sz, kind: "wal:eh:0", desc: fmt.Sprintf("WAL fsync up to byte %d (eh:0, BaseWAL.OnStart)", sz), nsigs: len(rec.sigs), nacted: len(rec.acted), walMsgs: 1})
 		}
 		rec.walDur, rec.walBuf = sz, sz
@@ -717,6 +753,8 @@ type crNode struct {
 	stage  string                  // last assembly stage reached
 	failed string                  // panic / error text of a failed start
 	boHt   uint64                  // BlockOperations.Height() at start
+	hh0    int64                   // head height right after NewBlockChain (its repair included)
+	startLogs []string             // captured log records of OnStart (catchupReplay, repair)
 }
 
 func crGuard(f func()) (panicked string) {
@@ -739,8 +777,15 @@ func crGuard(f func()) (panicked string) {
 // crStartNode assembles and starts a node on (mem, walBytes) — a fresh node when both are empty.
 // Every stage runs guarded; nd.failed != "" tells that the start did not succeed, nd.stage where.
 func crStartNode(env *crEnv, mem *memorydb.Database, walBytes []byte, rec *crRec) *crNode {
-	nd := &crNode{env: env, rec: rec}
-	dir, err := os.MkdirTemp("", "c05-node-")
+	nd := &crNode{env: env, rec: rec, hh0: -1}
+	if crTmpRoot == "" {
+		base := ""
+		if st, err := os.Stat("/dev/shm"); err == nil && st.IsDir() {
+			base = "/dev/shm" // fsync on tmpfs is cheap; durability is logical in this harness
+		}
+		crTmpRoot, _ = os.MkdirTemp(base, "c05-")
+	}
+	dir, err := os.MkdirTemp(crTmpRoot, "node-")
 	if err != nil {
 		panic(err)
 	}
@@ -776,6 +821,9 @@ func crStartNode(env *crEnv, mem *memorydb.Database, walBytes []byte, rec *crRec
 	ok := step("NewBlockChain", func() error {
 		bc, err := blockchain.NewBlockChain(nd.db, env.cacheConfig(), gs)
 		nd.bc = bc
+		if err == nil {
+			nd.hh0 = int64(bc.CurrentBlock().Height())
+		}
 		return err
 	}) && step("NewStore+evidence.NewPool", func() error {
 		nd.store = cstate.NewStore(nd.db)
@@ -838,7 +886,10 @@ func crStartNode(env *crEnv, mem *memorydb.Database, walBytes []byte, rec *crRec
 		nd.cs.wal = w
 		return nil
 	}) && step("OnStart", func() error {
-		return nd.cs.Start()
+		crLogs.take()
+		err := nd.cs.Start()
+		nd.startLogs = crLogs.take()
+		return err
 	})
 	if ok {
 		nd.stage = "running"
@@ -855,12 +906,24 @@ func (nd *crNode) kill() {
 	crGuard(func() {
 		if nd.cs != nil && nd.cs.IsRunning() {
 			nd.cs.Stop()
-			select {
-			case <-nd.cs.done:
-			case <-time.After(2 * time.Second):
+			if nd.stage == "running" { // the receive routine exists only after a successful OnStart
+				select {
+				case <-nd.cs.done:
+				case <-time.After(2 * time.Second):
+				}
 			}
-		} else if nd.wal != nil {
+		}
+	})
+	crGuard(func() {
+		if nd.wal != nil && nd.wal.inner.IsRunning() {
 			nd.wal.inner.Stop()
+		}
+	})
+	crGuard(func() {
+		if nd.cs != nil {
+			if w, ok := nd.cs.wal.(*BaseWAL); ok && w.IsRunning() {
+				w.Stop()
+			}
 		}
 	})
 	crGuard(func() {
@@ -880,7 +943,11 @@ func (nd *crNode) walBytes() []byte {
 	return b
 }
 
-func (nd *crNode) cleanup() { os.RemoveAll(nd.dir) }
+// cleanup: node directories live under one parent that is removed when the test ends (a WAL group
+// whose ticker outlives its directory panics in its own goroutine)
+func (nd *crNode) cleanup() {}
+
+var crTmpRoot string
 
 // dead reports whether the receive routine has exited on its own (CONSENSUS FAILURE).
 func (nd *crNode) dead() bool {
@@ -1218,12 +1285,12 @@ func crRestart(env *crEnv, img *crImg, wall time.Duration) *crRun {
 	mem := img.db()
 	r.pre = crReadFacts(mem)
 	r.rec = crNewRec()
+	t0 := time.Now()
 	nd := crStartNode(env, mem, img.wal, r.rec)
+	t1 := time.Now()
 	r.nd = nd
 	r.stage = nd.stage
-	if nd.bc != nil {
-		crGuard(func() { r.hh0 = int64(nd.bc.CurrentBlock().Height()) })
-	}
+	r.hh0 = nd.hh0
 	if nd.cs != nil {
 		r.hc0 = int64(nd.state0.LastBlockHeight)
 		r.start = nd.state0.LastBlockHeight + 1
@@ -1243,11 +1310,13 @@ func crRestart(env *crEnv, img *crImg, wall time.Duration) *crRun {
 	if nd.cs != nil {
 		crGuard(func() { r.endH, r.endR, _ = nd.hrs() })
 	}
+	t2 := time.Now()
 	nd.kill()
-	r.logs = crLogs.take()
+	t3 := time.Now()
+	r.logs = append(append([]string{}, nd.startLogs...), crLogs.take()...)
 	r.life = crLifeOf(r.rec, nd.walBytes())
 	// replay outcome as the code reported it
-	switch e, bad := crFind(r.logs, "replay-err"); {
+	switch e, bad := crFind(nd.startLogs, "replay-err"); {
 	case !r.started && nd.stage != "OnStart":
 		r.replay = "-"
 	case bad && strings.Contains(e, "wal should not contain #ENDHEIGHT"):
@@ -1259,11 +1328,27 @@ func crRestart(env *crEnv, img *crImg, wall time.Duration) *crRun {
 	case bad:
 		r.replay = "other-error"
 	default:
-		if _, ok := crFind(r.logs, "replay-done"); ok {
+		if _, ok := crFind(nd.startLogs, "replay-done"); ok {
 			r.replay = "replayed"
 		} else {
 			r.replay = "aborted"
 		}
+	}
+	if os.Getenv("C05_DBG") != "" && r.replay == "eh-present" {
+		dec := NewWALDecoder(bytes.NewReader(img.wal))
+		var hs []int64
+		n := 0
+		for {
+			m, err := dec.Decode()
+			if err != nil {
+				break
+			}
+			n++
+			if e, ok := m.Msg.(EndHeightMessage); ok {
+				hs = append(hs, e.Height)
+			}
+		}
+		fmt.Printf("DBG eh-present start=%d image-wal: %d bytes %d records endheights=%v tail=%s window=%s startLogs=%v\n", r.start, len(img.wal), n, hs, img.tail, img.window, nd.startLogs)
 	}
 	if _, ok := crFind(r.logs, "wal-repaired"); ok {
 		r.repaired = true
@@ -1283,6 +1368,9 @@ func crRestart(env *crEnv, img *crImg, wall time.Duration) *crRun {
 		crGuard(func() { r.finalHH = int64(nd.bc.CurrentBlock().Height()) })
 	}
 	nd.cleanup()
+	if os.Getenv("C05_TIME") != "" {
+		fmt.Printf("TIME start=%v run=%v kill=%v total=%v failed=%q\n", t1.Sub(t0), t2.Sub(t1), t3.Sub(t2), time.Since(t0), strings.Split(nd.failed, "\n")[0])
+	}
 	return r
 }
 
@@ -1356,4 +1444,654 @@ func crRelate(pub []crActed, sigs []crSig) []crSigRel {
 		out = append(out, crSigRel{key: k, rel: rel, sig: s, prev: prev})
 	}
 	return out
+}
+
+// ---------------------------------------------------------------------------------------------
+// a case: one scenario, its first life, every crash point, sampled second crashes
+
+func (e *crEnv) makeTx(user int, nonce uint64) *types.Transaction {
+	to := common.BytesToAddress([]byte{0xc0, 0x05, byte(user)})
+	tx := types.NewTransaction(nonce, to, big.NewInt(1000+int64(nonce)), 100000, big.NewInt(1000000000), nil)
+	stx, err := types.SignTx(types.HomesteadSigner{}, tx, e.userKey[user].GetPrivKey())
+	if err != nil {
+		panic(err)
+	}
+	return stx
+}
+
+type crCase struct {
+	o        *crOut
+	r        *crRand
+	env      *crEnv
+	opNo     int
+	life0    *crLife
+	facts0   *crFacts // final facts of the first life (the twin)
+	appFixed bool     // a genesis state reloaded at height 0 equals MakeGenesisState's (app hash)
+	thorough bool
+}
+
+func crB(b bool) int {
+	if b {
+		return 1
+	}
+	return 0
+}
+
+func crFactsS(f *crFacts) string {
+	var st []string
+	for h := uint64(0); h <= f.hs+1; h++ {
+		if f.hasSt[h] {
+			st = append(st, fmt.Sprint(h))
+		}
+	}
+	s := "-"
+	if len(st) > 0 {
+		s = strings.Join(st, ",")
+	}
+	return fmt.Sprintf("hs=%d hh=%d hc=%d hcHead=%d st=%s", f.hs, f.hh, f.hcMax, crB(f.hcHead), s)
+}
+
+// sigs of the height the restarted node starts at (up to its next commit)
+func crSigsOf(rels []crSigRel, start uint64) []crSigRel {
+	var l []crSigRel
+	for _, x := range rels {
+		if x.sig.height <= start {
+			l = append(l, x)
+		}
+	}
+	return l
+}
+
+func crSigsS(rels []crSigRel, withRel bool) string {
+	if len(rels) == 0 {
+		return "-"
+	}
+	var l []string
+	for _, x := range rels {
+		v := "b"
+		if x.sig.bid.Hash.IsZero() {
+			v = "n"
+		}
+		if withRel {
+			v += x.rel
+		}
+		l = append(l, x.key+v)
+	}
+	return strings.Join(l, ",")
+}
+
+// replaced: what happened to the block stored at the start height
+func crReplaced(r *crRun) string {
+	h := r.start
+	was, ok := r.pre.meta[h]
+	if !ok || h == 0 {
+		return "-"
+	}
+	var l []string
+	if now, ok2 := r.post.meta[h]; ok2 && now != was {
+		l = append(l, "meta")
+	}
+	if cn, ok3 := r.post.canon[h]; ok3 && cn != was {
+		l = append(l, "canon")
+	}
+	if len(l) == 0 {
+		return "-"
+	}
+	return strings.Join(l, "+")
+}
+
+// observe prints the observable line of one restart
+func (c *crCase) observe(r *crRun, rels []crSigRel, withRel bool) string {
+	st := "ok"
+	if !r.started {
+		st = "FAIL@" + r.stage + ":" + r.failCls
+	}
+	hhE := fmt.Sprint(r.finalHH)
+	if r.started && r.finalHH >= int64(r.start) {
+		hhE = "start"
+	}
+	return fmt.Sprintf("I %s | R %s hh=%d hc=%d start=%d bo=%d replay=%s repaired=%d | E %s panic=%s head=%s repl=%s | S %s",
+		crFactsS(r.pre), st, r.hh0, r.hc0, r.start, r.bo0, r.replay, crB(r.repaired),
+		r.end, r.panicCls, hhE, crReplaced(r), crSigsS(rels, withRel))
+}
+
+// cause: the narrow root-cause tag of a run, from what the restart observed
+func (c *crCase) cause(r *crRun) string {
+	pubAt1 := false
+	for _, a := range r.img.pub {
+		if a.height == 1 {
+			pubAt1 = true
+		}
+	}
+	switch {
+	case len(r.pre.canon) > 0 && (r.pre.hh < 0 || r.pre.app[0] == (common.Hash{})):
+		return "genesis-commit-not-atomic"
+	case r.fellBack:
+		return "genesis-fallback"
+	case r.pre.hh >= 0 && r.hh0 >= 0 && r.hh0 < r.pre.hh:
+		return "head-rewound"
+	case r.hc0 >= 0 && r.hh0 >= 0 && r.hc0 < r.hh0:
+		return "cstate-behind-head"
+	case !c.appFixed && r.hc0 == 0 && r.pre.hcMax >= 0 && pubAt1 && r.replay != "eh-present":
+		return "genesis-apphash"
+	case r.replay == "eh-present":
+		return "endheight-without-state"
+	case r.repaired && r.replay == "no-marker":
+		return "wal-repair-drops-endheight"
+	case r.replay == "no-marker":
+		return "wal-marker-missing"
+	case r.replay == "replayed":
+		return "replay-resign"
+	}
+	return "other"
+}
+
+// oracles: the property itself, checked on one restart against the life before the crash
+func (c *crCase) oracles(r *crRun, rels []crSigRel, twin *crFacts, inherited string) {
+	img := r.img
+	mode := "keep-recent"
+	if c.env.sc.archive {
+		mode = "flush-every-block"
+	}
+	cause := c.cause(r)
+	if inherited != "" {
+		cause = inherited
+	}
+	ctx := fmt.Sprintf("cause=%s mode=%s window=%s tail=%s", cause, mode, img.window, img.tail)
+	at := " crash-point=\"" + img.desc + "\""
+	fail := func(class, more string) {
+		c.o.Fail(c.opNo, class, fmt.Sprintf("%s %s%s", ctx, more, at))
+		c.o.Count("oracle:" + class + ":" + cause)
+	}
+	// (1) starts without manual repair
+	if !r.started {
+		fail("restart-fails", fmt.Sprintf("stage=%s failure=%s pre[%s]", r.stage, r.failCls, crFactsS(r.pre)))
+		return
+	}
+	// (2) the stores agree on one chain prefix, a prefix of what had been committed
+	if r.hc0 != r.hh0 {
+		fail("stores-diverge", fmt.Sprintf("head=%d consensus-state=%d block-store=%d start-height=%d", r.hh0, r.hc0, r.pre.hs, r.start))
+	} else if r.hh0 >= 0 && uint64(r.hh0) > r.pre.hs {
+		fail("stores-diverge", fmt.Sprintf("head=%d above block-store=%d", r.hh0, r.pre.hs))
+	}
+	for h := uint64(1); h <= r.pre.hs; h++ {
+		was, ok := r.pre.meta[h]
+		if !ok {
+			continue
+		}
+		now, ok2 := r.post.meta[h]
+		cn, ok3 := r.post.canon[h]
+		if (ok2 && now != was) || (ok3 && cn != was) {
+			fail("block-replaced", fmt.Sprintf("height=%d meta-changed=%v canonical-changed=%v", h, ok2 && now != was, ok3 && cn != was))
+		}
+	}
+	// (3) no conflicting signature; no committed height decided differently; no finished height run again
+	decided := map[uint64]string{}
+	for _, a := range img.pub {
+		if a.vote && a.typ == int(kproto.PrecommitType) && !a.bid.Hash.IsZero() {
+			decided[a.height] = crBidKey(a.bid)
+		}
+	}
+	seen := map[string]bool{}
+	for _, x := range rels {
+		if x.rel == "!" && !seen[x.key] {
+			seen[x.key] = true
+			published := "replayed-original-wins"
+			for _, a := range r.life.acted {
+				if crSigKey(a.proposal, a.typ, a.height, a.round) == x.key && crBidKey(a.bid) == crBidKey(x.sig.bid) {
+					published = "published-again"
+				}
+			}
+			kind := "vote"
+			if x.sig.proposal {
+				kind = "proposal"
+			}
+			fail("double-sign", fmt.Sprintf("what=%s key=%s %s start-height=%d replay=%s", kind, x.key, published, r.start, r.replay))
+		}
+		if !x.sig.proposal && x.sig.typ == int(kproto.PrecommitType) && !x.sig.bid.Hash.IsZero() {
+			if d, ok := decided[x.sig.height]; ok && d != crBidKey(x.sig.bid) && !seen["d"+fmt.Sprint(x.sig.height)] {
+				seen["d"+fmt.Sprint(x.sig.height)] = true
+				fail("height-redecided", fmt.Sprintf("height=%d start-height=%d", x.sig.height, r.start))
+			}
+		}
+	}
+	for _, x := range rels {
+		if r.pre.hh >= 0 && x.sig.height <= uint64(r.pre.hh) && !seen["r"] {
+			seen["r"] = true
+			fail("height-rerun", fmt.Sprintf("signs at height=%d although the head before the restart was %d (block-store %d)", x.sig.height, r.pre.hh, r.pre.hs))
+		}
+	}
+	// (4) flush-every-block: nothing lost, continues like the twin
+	if c.env.sc.archive {
+		if r.hh0 >= 0 && r.pre.hh >= 0 && r.hh0 < r.pre.hh {
+			fail("block-lost", fmt.Sprintf("head %d -> %d at start", r.pre.hh, r.hh0))
+		}
+		if r.finalHH >= 0 && r.pre.hh >= 0 && r.finalHH < r.pre.hh {
+			fail("block-lost", fmt.Sprintf("head %d -> %d after the recovery run", r.pre.hh, r.finalHH))
+		}
+		for h := uint64(1); h <= r.pre.hs; h++ {
+			if _, ok := r.post.meta[h]; !ok {
+				fail("block-lost", fmt.Sprintf("height=%d meta gone", h))
+			}
+		}
+		if r.end != "committed" {
+			fail("diverges-from-twin", fmt.Sprintf("no-progress end=%s panic=%s start-height=%d end-height=%d", r.end, r.panicCls, r.start, r.endH))
+		} else {
+			// the twin is at height (committed blocks)+1; a restarted node must resume there
+			if want := r.pre.hs; r.start != want && r.start != want+1 {
+				fail("diverges-from-twin", fmt.Sprintf("start-height=%d twin-height-in=[%d,%d]", r.start, want, want+1))
+			}
+			for h := uint64(1); h <= r.post.hs; h++ {
+				if a, ok := r.post.app[h]; ok {
+					if ta, ok2 := twin.app[h]; ok2 && r.post.meta[h] == twin.meta[h] && ta != a {
+						fail("diverges-from-twin", fmt.Sprintf("app-hash differs at height=%d for the same block", h))
+					}
+				}
+			}
+		}
+	} else if r.end == "dead" {
+		// keep-recent mode: dropping blocks is allowed, dying is not
+		fail("restart-fails", fmt.Sprintf("stage=running failure=dies-%s start-height=%d head=%d block-store=%d", r.panicCls, r.start, r.hh0, r.pre.hs))
+	} else if r.end != "committed" {
+		fail("no-progress", fmt.Sprintf("end=%s start-height=%d head=%d block-store=%d", r.end, r.start, r.hh0, r.pre.hs))
+	}
+}
+
+func (c *crCase) step(in string, img *crImg, withRel bool, inherited string) (*crRun, string) {
+	r := crRestart(c.env, img, 3*time.Second)
+	all := crRelate(img.pub, r.life.sigs)
+	c.oracles(r, all, c.facts0, inherited)
+	rels := crSigsOf(all, r.start)
+	obs := c.observe(r, rels, withRel)
+	c.o.Op(in, obs)
+	c.o.Count("end:" + r.end)
+	c.o.Count("replay:" + r.replay)
+	c.o.Count("tail:" + img.tail)
+	cause := c.cause(r)
+	c.o.Count("cause:" + cause)
+	w := strings.NewReplacer("0", "", "1", "", "2", "", "3", "", "4", "", "5", "", "6", "", "7", "", "8", "", "9", "").Replace(img.window)
+	c.o.Mark(fmt.Sprintf("%v|%s|%s|%s|%s|%s", c.env.sc.archive, w, img.tail, r.end, r.replay, cause))
+	c.opNo++
+	if os.Getenv("C05_DUMP") != "" {
+		fmt.Printf("%-14s %-50s %s\n", in, img.window, obs)
+	}
+	return r, cause
+}
+
+// crNRecs: number of complete records of life l within the first n bytes of its WAL file
+func crNRecs(l *crLife, n int) int {
+	c := 0
+	for _, rc := range l.recs {
+		if rc.end <= n {
+			c++
+		}
+	}
+	return c
+}
+
+// crLifeLines: a life for the model: its WAL records and its durable writes
+func crLifeLines(o *crOut, id int, parent string, l *crLife, baseRecs int) {
+	var ks []string
+	for _, rc := range l.recs {
+		ks = append(ks, rc.tok)
+	}
+	o.InOnly(fmt.Sprintf("LIFE %d %s %d %d", id, parent, len(l.log), len(l.recs)))
+	o.InOnly("RECS " + strings.Join(ks, " "))
+	for _, w := range l.log {
+		// number of this life's records durable / handed to the WAL when the entry was made
+		nd, nb := 0, 0
+		for _, rc := range l.recs {
+			if rc.end <= w.walLen {
+				nd++
+			}
+			if rc.end <= w.walBuf {
+				nb++
+			}
+		}
+		if w.wal {
+			o.InOnly(fmt.Sprintf("W wal %d %d", nd, nb))
+		} else {
+			o.InOnly(fmt.Sprintf("W db %s %d %d %d", w.kind, w.height, nd, nb))
+		}
+	}
+}
+
+func crRunCase(o *crOut, idx int, r *crRand, tier string) {
+	sc := crScenario{archive: idx%2 == 0, snapshot: (idx/2)%2 == 0, heights: 3, txAt: map[uint64]int{}}
+	if tier == "thorough" {
+		sc.heights = 4 + r.Intn(3)
+	}
+	switch (idx / 4) % 3 {
+	case 0:
+		sc.txAt[2] = 2 // txs while the node is in height 2
+	case 1:
+		sc.txAt[1] = 1
+		sc.txAt[uint64(sc.heights)] = 2
+	case 2: // only empty blocks
+	}
+	if tier == "thorough" && idx >= 12 {
+		for h := uint64(1); h <= uint64(sc.heights); h++ {
+			sc.txAt[h] = r.Intn(3)
+		}
+	}
+	env := crNewEnv(sc)
+	c := &crCase{o: o, r: r, env: env, thorough: tier == "thorough"}
+	// does a genesis state reloaded at height 0 equal the one MakeGenesisState builds?
+	{
+		db := memorydb.New()
+		gs := env.genesis()
+		if _, _, err := genesis.SetupGenesisBlock(db, gs); err != nil {
+			panic(err)
+		}
+		st := cstate.NewStore(db)
+		a, _ := st.LoadStateFromDBOrGenesisDoc(gs)
+		b := st.Load()
+		c.appFixed = a.AppHash == b.AppHash
+	}
+
+	// ---- first life
+	crLogs.take()
+	rec := crNewRec()
+	nd := crStartNode(env, memorydb.New(), nil, rec)
+	if nd.failed != "" {
+		o.Case(idx, fmt.Sprintf("CASE %d %d %d %d %d -", idx, crB(sc.archive), crB(sc.snapshot), sc.heights, crB(c.appFixed)))
+		o.Fail(0, "first-start-fails", fmt.Sprintf("cause=stage-%s-%s %s", nd.stage, crPanicClass(nd.failed), strings.Split(nd.failed, "\n")[0]))
+		nd.kill()
+		return
+	}
+	nonce := [2]uint64{}
+	stopped := ""
+	for h := uint64(1); h <= uint64(sc.heights); h++ {
+		for i := 0; i < sc.txAt[h]; i++ {
+			u := i % 2
+			if err := nd.txPool.AddLocal(env.makeTx(u, nonce[u])); err != nil {
+				o.Fail(0, "harness-tx-rejected", err.Error())
+			}
+			nonce[u]++
+		}
+		if e := nd.runUntil(h+1, 2, 10*time.Second); e != "committed" {
+			logs := crLogs.take()
+			pc := "-"
+			if x, ok := crFind(logs, "consensus-failure"); ok {
+				pc = crPanicClass(x) + ": " + strings.Split(x, "\n")[0]
+			}
+			stopped = fmt.Sprintf("cause=first-life-%s at-height=%d panic=%s", e, h, pc)
+			break
+		}
+	}
+	if stopped == "" {
+		time.Sleep(15 * time.Millisecond) // into the first messages of the next height
+	}
+	nd.kill()
+	c.life0 = crLifeOf(rec, nd.walBytes())
+	c.facts0 = crReadFacts(nd.db.inner)
+	l := c.life0
+	// which blocks of the first life carried transactions (the re-created proposal differs there)
+	var txd []string
+	for h := uint64(1); h <= c.facts0.hs+1; h++ {
+		n := 0
+		crGuard(func() {
+			if b := rawdb.ReadBlock(nd.db.inner, h); b != nil {
+				n = len(b.Transactions())
+			}
+		})
+		txd = append(txd, fmt.Sprint(n))
+	}
+	o.Case(idx, fmt.Sprintf("CASE %d %d %d %d %d %s", idx, crB(sc.archive), crB(sc.snapshot), sc.heights, crB(c.appFixed), strings.Join(txd, ",")))
+	o.Count(fmt.Sprintf("mode:archive=%v,snapshot=%v", sc.archive, sc.snapshot))
+	if stopped != "" {
+		o.Fail(0, "first-life-stops", stopped)
+	}
+	// own messages must be durable before they are acted upon (write-ahead discipline)
+	for _, a := range l.acted {
+		if !a.durable {
+			o.Fail(0, "own-msg-not-durable", fmt.Sprintf("cause=acted-before-fsync key=%s", crSigKey(a.proposal, a.typ, a.height, a.round)))
+		}
+	}
+	// the commit pipeline must save the block before #ENDHEIGHT and the state after it
+	c.pipelineOracle(l)
+	crLifeLines(o, 0, "-", l, 0)
+	for _, w := range l.log {
+		o.Count("write:" + w.kind)
+	}
+	if os.Getenv("C05_DUMP") != "" {
+		for i, w := range l.log {
+			fmt.Printf("#%d %s %d [%s]\n", i, w.kind, w.height, w.desc)
+		}
+	}
+	base := &crImg{}
+	type pick struct {
+		k     int
+		run   *crRun
+		img   *crImg
+		cause string
+	}
+	var picks []pick
+	lastH := uint64(0)
+	for _, w := range l.log {
+		if w.kind == "cstate" && w.height > lastH {
+			lastH = w.height
+		}
+	}
+	variantsFrom := len(l.log)
+	for i, w := range l.log {
+		if w.kind == "cstate" && w.height+2 == lastH+1 { // the last two heights
+			variantsFrom = i
+		}
+	}
+	for k := 0; k <= len(l.log); k++ {
+		img := crCut(base, l, k, "synced")
+		run, cause := c.step(fmt.Sprintf("K %d synced %d", k, crNRecs(l, len(img.wal))), img, true, "")
+		picks = append(picks, pick{k, run, img, cause})
+		if !c.thorough && k < variantsFrom {
+			continue
+		}
+		// the same crash point with the unsynced WAL tail surviving / torn
+		if b := crCut(base, l, k, "buffered"); len(b.wal) != len(img.wal) {
+			c.step(fmt.Sprintf("K %d buffered %d", k, crNRecs(l, len(b.wal))), b, true, "")
+			if t := crCut(base, l, k, "torn"); t.tail == "torn" {
+				c.step(fmt.Sprintf("K %d torn %d", k, crNRecs(l, len(t.wal))), t, true, "")
+			}
+		}
+	}
+	// ---- second crash: crash the recovering node again
+	want := 5
+	if c.thorough {
+		want = 14
+	}
+	seenW := map[string]bool{}
+	var chosen []pick
+	for i := len(picks) - 1; i >= 0 && len(chosen) < want; i-- {
+		p := picks[i]
+		w := strings.NewReplacer("0", "", "1", "", "2", "", "3", "", "4", "", "5", "", "6", "", "7", "", "8", "", "9", "").Replace(p.img.window)
+		if seenW[w] || !p.run.started || p.run.repaired || len(p.run.life.log) == 0 {
+			continue
+		}
+		seenW[w] = true
+		chosen = append(chosen, p)
+	}
+	for n, p := range chosen {
+		l1 := p.run.life
+		crLifeLines(o, n+1, fmt.Sprint(p.k), l1, 0)
+		inh := ""
+		switch p.cause {
+		case "genesis-fallback", "head-rewound", "endheight-without-state", "genesis-apphash", "cstate-behind-head":
+			inh = p.cause
+		}
+		for j := 1; j <= len(l1.log); j++ {
+			if !c.thorough && len(l1.log) > 8 && j%2 == 0 && j != len(l1.log) {
+				continue
+			}
+			img2 := crCut(p.img, l1, j, "synced")
+			img2.window = "2nd:" + p.img.window + "+" + img2.window
+			img2.desc = p.img.desc + "; restarted; second crash " + img2.desc
+			c.step(fmt.Sprintf("X %d %d %d synced %d %d", n+1, p.k, j, crNRecs(l, len(p.img.wal)), crNRecs(l1, len(img2.wal))), img2, false, inh)
+		}
+	}
+}
+
+// pipelineOracle: direct check of the order of the durable writes of every finished height:
+// own proposal, prevote and precommit fsynced; then the block batch; then #ENDHEIGHT; then the
+// application writes, the head pointer and the consensus-state record, in this order.
+func (c *crCase) pipelineOracle(l *crLife) {
+	pos := map[string]int{}
+	for i, w := range l.log {
+		if w.height > 0 && !w.wal {
+			pos[fmt.Sprintf("%s:%d", w.kind, w.height)] = i
+		}
+		if w.wal && strings.HasPrefix(w.kind, "wal:eh:") {
+			pos[fmt.Sprintf("eh:%d", w.height)] = i
+		}
+	}
+	for h := uint64(1); h <= 64; h++ {
+		cs, ok := pos[fmt.Sprintf("cstate:%d", h)]
+		if !ok {
+			break
+		}
+		b, ok1 := pos[fmt.Sprintf("block:%d", h)]
+		e, ok2 := pos[fmt.Sprintf("eh:%d", h)]
+		bi, ok3 := pos[fmt.Sprintf("binfo:%d", h)]
+		hd, ok4 := pos[fmt.Sprintf("head:%d", h)]
+		if !(ok1 && ok2 && ok3 && ok4) {
+			c.o.Fail(0, "pipeline-order", fmt.Sprintf("cause=missing-write height=%d block=%v endheight=%v binfo=%v head=%v", h, ok1, ok2, ok3, ok4))
+			continue
+		}
+		if !(b < e && e < bi && bi < hd && hd < cs) {
+			c.o.Fail(0, "pipeline-order", fmt.Sprintf("cause=order height=%d block@%d endheight@%d binfo@%d head@%d cstate@%d", h, b, e, bi, hd, cs))
+		}
+		// the precommit that decided h must be durable before the block batch
+		okv := false
+		for _, a := range l.acted {
+			if a.vote && a.typ == int(kproto.PrecommitType) && a.height == h && a.durable && a.at <= b {
+				okv = true
+			}
+		}
+		if !okv {
+			c.o.Fail(0, "pipeline-order", fmt.Sprintf("cause=precommit-not-durable-before-block height=%d", h))
+		}
+	}
+}
+
+func TestVerifC05(t *testing.T) {
+	if *crFactsFlag != "" {
+		os.WriteFile(*crFactsFlag, []byte("(* C05 has no source-derived facts *)\n"), 0o644)
+		return
+	}
+	log.Root().SetHandler(crLogs.handler())
+	configs.AddDefaultContract()
+	if *crDir == "" {
+		t.Skip("-out required")
+	}
+	rule := "a case is one scenario (state-cache mode, snapshot on/off, heights, transactions per height); an op is one crash image (prefix of the durable-write log x WAL tail variant, or a second crash during recovery) restarted on a new node; distinct = (mode, window between two durable writes, tail, end class, replay class, root cause)"
+	if *crOnly < 0 && *crN > 1 && os.Getenv("C05_CHILD") == "" {
+		crFanOut(t, rule)
+		return
+	}
+	o := crOpen(*crDir)
+	o.rule = rule
+	root := crNewRand(*crSeed)
+	for i := 0; i < *crN; i++ {
+		if *crOnly >= 0 && *crOnly != i {
+			continue
+		}
+		crRunCase(o, i, root.Fork(uint64(i)), *crTier)
+	}
+	o.Close()
+	if crTmpRoot != "" {
+		os.RemoveAll(crTmpRoot)
+	}
+}
+
+// crFanOut runs every case in its own process (the log capture and the node are process-wide)
+// and concatenates the outputs in case order.
+func crFanOut(t *testing.T, rule string) {
+	par := 6
+	if *crTier == "thorough" {
+		par = 2 // sixteen shards run at once in that tier
+	}
+	if par > *crN {
+		par = *crN
+	}
+	type res struct {
+		i   int
+		err error
+		out []byte
+	}
+	sem := make(chan struct{}, par)
+	done := make(chan res, *crN)
+	for i := 0; i < *crN; i++ {
+		i := i
+		go func() {
+			sem <- struct{}{}
+			defer func() { <-sem }()
+			dir := filepath.Join(*crDir, fmt.Sprintf("case_%d", i))
+			cmd := exec.Command(os.Args[0], "-test.run", "TestVerifC05", "-test.timeout", "0", "-seed", fmt.Sprint(*crSeed), "-n", fmt.Sprint(*crN),
+				"-only", fmt.Sprint(i), "-out", dir, "-tier", *crTier)
+			cmd.Env = append(os.Environ(), "C05_CHILD=1")
+			out, err := cmd.CombinedOutput()
+			done <- res{i, err, out}
+		}()
+	}
+	for n := 0; n < *crN; n++ {
+		r := <-done
+		if r.err != nil {
+			t.Fatalf("case %d: %v\n%s", r.i, r.err, r.out)
+		}
+		if os.Getenv("C05_DBG") != "" {
+			os.Stdout.Write(r.out)
+		}
+	}
+	os.MkdirAll(*crDir, 0o755)
+	dist := map[string]int{}
+	keys := map[string]bool{}
+	var samples []string
+	cases, ops, fails := 0, 0, 0
+	var bufs [3]*os.File
+	for n, name := range []string{"in.txt", "impl.txt", "oracle.txt"} {
+		f, err := os.Create(filepath.Join(*crDir, name))
+		if err != nil {
+			t.Fatal(err)
+		}
+		bufs[n] = f
+	}
+	for i := 0; i < *crN; i++ {
+		dir := filepath.Join(*crDir, fmt.Sprintf("case_%d", i))
+		for n, name := range []string{"in.txt", "impl.txt", "oracle.txt"} {
+			b, _ := os.ReadFile(filepath.Join(dir, name))
+			bufs[n].Write(b)
+		}
+		var st struct {
+			Cases   int            `json:"cases"`
+			Ops     int            `json:"ops"`
+			Dist    map[string]int `json:"dist"`
+			Samples []string       `json:"samples"`
+			Fails   int            `json:"oracle_failures"`
+			Keys    []string       `json:"nontrivial_keys"`
+		}
+		b, _ := os.ReadFile(filepath.Join(dir, "stats.json"))
+		json.Unmarshal(b, &st)
+		cases += st.Cases
+		ops += st.Ops
+		fails += st.Fails
+		for k, v := range st.Dist {
+			dist[k] += v
+		}
+		for _, k := range st.Keys {
+			keys[k] = true
+		}
+		if len(samples) < 3 {
+			samples = append(samples, st.Samples...)
+		}
+		os.RemoveAll(dir)
+	}
+	for _, f := range bufs {
+		f.Close()
+	}
+	if len(samples) > 3 {
+		samples = samples[:3]
+	}
+	st := map[string]interface{}{"cases": cases, "ops": ops, "distinct_nontrivial": len(keys), "rule": rule, "dist": dist,
+		"samples": samples, "oracle_failures": fails, "seed": *crSeed}
+	b, _ := json.MarshalIndent(st, "", " ")
+	os.WriteFile(filepath.Join(*crDir, "stats.json"), b, 0o644)
 }
